@@ -64,7 +64,7 @@ class BoxEngine(Engine):
     max_ops = 40
     expected_probes = ['cache_warm_when_vects_changed', 'refused_raised', 'scribble_returned',
                        'scribble_passed', 'on_face_exact', 'nonnorm_cell', 'reexpress_norm',
-                       'reexpress_nonnorm', 'list_input', 'scalar_point', 'model_roundtrip', 'model_of_other_cell_read', 'noncontiguous_points', 'cube_rotated_cell', 'bulk_points_query', 'classmethod_same_arguments_again', 'integer_typed_lengths', 'integer_typed_angles', 'integer_typed_cartesian_points', 'bystander_call', 'earlier_definition_repeated',
+                       'reexpress_nonnorm', 'list_input', 'scalar_point', 'model_roundtrip', 'model_of_other_cell_read', 'noncontiguous_points', 'cube_rotated_cell', 'bulk_points_query', 'classmethod_same_arguments_again', 'integer_typed_lengths', 'integer_typed_angles', 'refused_vector_of_wrong_length', 'integer_typed_cartesian_points', 'bystander_call', 'earlier_definition_repeated',
                        'scribble_returned_planes']
     rule = ('Each run drives ONE Box object (occasionally replaced by a constructor or deepcopy) through up to 40 '
             'seeded operations: the five setter families (set_vectors, set_abc, set_lengths, set_hi_los, '
@@ -272,13 +272,18 @@ class BoxEngine(Engine):
         k = ctx.wchoice([('refuse', 1.0), ('scribble_returned', 1.0), ('scribble_passed', 1.0)])
         if k == 'refuse':
             what = r.choice(['abc_angle', 'lengths_nonpos', 'hi_lo_inverted', 'set_unknown', 'set_extra',
-                             'ctor_model_extra'])
+                             'ctor_model_extra', 'vectors_bad_shape', 'vectors_bad_shape'])
             op = {'op': 'refuse', 'what': what}
             s = st['scale'] * 3.0
             if what == 'abc_angle':
                 ang = [90.0, 90.0, 90.0]
                 ang[r.randrange(3)] = r.choice([0.0, 180.0, -20.0, 200.0])
                 op['abc'] = [s, s * 1.5, s * 2.0] + ang
+            elif what == 'vectors_bad_shape':
+                # three new edge vectors of which one is not a 3-vector: nothing of the call may stick
+                op['bad'] = r.randrange(3)
+                op['ncomp'] = r.choice([2, 4])
+                op['via'] = r.choice(['method', 'set'])
             elif what in ('lengths_nonpos', 'hi_lo_inverted'):
                 l = [s, s * 1.5, s * 2.0]
                 l[r.randrange(3)] = r.choice([0.0, -s])
@@ -689,6 +694,13 @@ class BoxEngine(Engine):
         elif what == 'hi_lo_inverted':
             l = op['l']
             ok, v = ctx.sut(box.set_hi_los, xlo=0.0, xhi=l[0], ylo=0.0, yhi=l[1], zlo=0.0, zhi=l[2])
+        elif what == 'vectors_bad_shape':
+            rows = [list(map(float, 1.5 * st['V'][(i + 1) % 3] + 0.25 * st['V'][i])) for i in range(3)]
+            k = int(op.get('bad', 2)) % 3
+            rows[k] = (rows[k] + [1.0])[:int(op.get('ncomp', 2))]
+            fn = box.set if op.get('via') == 'set' else box.set_vectors
+            ok, v = ctx.sut(fn, avect=rows[0], bvect=rows[1], cvect=rows[2])
+            ctx.probe('refused_vector_of_wrong_length')
         elif what == 'set_unknown':
             ok, v = ctx.sut(box.set, bogus=1.0)
         elif what == 'set_extra':
